@@ -276,6 +276,77 @@ def injections(N, k, thermal):
                 yield dict(fcall=f, phase=phase, kind=kind)
 
 
+def c15_ramp(x, y, z, *, t, B=0.6, rate=6.0):
+    s_ = min(1.0, 0.1 + rate * t)
+    return np.stack([-s_ * B * y / 2, s_ * B * x / 2, np.zeros_like(x)], axis=1)
+
+
+def mid_update_cancel(ctx):
+    """cancellation that arrives in the MIDDLE of an update (after part of the step's work has been done, e.g. between
+    two screening iterations): the final frame written for the interrupted step and the returned partial solution hold
+    the state after exactly that many completed updates -- bit for bit what an uninterrupted run has at that step"""
+    from tdgl.solver.solver import TDGLSolver
+
+    first = None
+    dev = zoo.make_device("ring", ctx.rng, max_edge_length=1.0, lam=0.5)
+    A = tdgl.Parameter(c15_ramp, time_dependent=True)
+    base = dict(dt_init=5e-3, adaptive=False, include_screening=True, screening_tolerance=1e-3, progress_interval=10**9, pause_on_interrupt=False)
+    ref_path = os.path.join(str(ctx.work), "mid_ref.h5")
+    ref = tdgl.solve(dev, runs.options(solve_time=0.06, save_every=1, output_file=ref_path, **base), applied_vector_potential=A)
+    ref_frames = {fr["step"]: fr for fr in runs.parse_h5(ref.path)[0]}
+    for where, at_step in (("solve_for_observables", 6), ("get_induced_vector_potential", 5), ("solve_for_observables", 3)):
+        orig = getattr(TDGLSolver, where)
+        upd = TDGLSolver.update
+        st = dict(step=-1, calls=0, fired=False)
+
+        def update(s_, state, *a, **kw):
+            st["step"], st["calls"] = int(state["step"]), 0
+            return upd(s_, state, *a, **kw)
+
+        def hooked(s_, *a, **kw):
+            st["calls"] += 1
+            if st["step"] == at_step and st["calls"] == 2 and not st["fired"]:  # second call inside this step: mid-update
+                st["fired"] = True
+                raise KeyboardInterrupt()
+            return orig(s_, *a, **kw)
+
+        out = os.path.join(str(ctx.work), f"mid_{where}_{at_step}.h5")
+        TDGLSolver.update = update
+        setattr(TDGLSolver, where, hooked)
+        try:
+            sol = tdgl.solve(dev, runs.options(solve_time=0.06, save_every=4, output_file=out, **base), applied_vector_potential=A)
+        except KeyboardInterrupt:
+            sol = None
+        finally:
+            TDGLSolver.update = upd
+            setattr(TDGLSolver, where, orig)
+        ctx.case(("mid-update-cancel", where, at_step), nontrivial=st["fired"])
+        ctx.count("mid_update_cancellations" if st["fired"] else "mid_update_injection_not_reached")
+        if not st["fired"] or not os.path.exists(out):
+            continue
+        frames = runs.parse_h5(out)[0]
+        bad = []
+        for fr in frames:
+            want = ref_frames.get(fr["step"])
+            if want is None:
+                bad.append((fr["step"], "no such step in the uninterrupted run"))
+                continue
+            for nm_, arr_ in fr["data"].items():
+                if nm_ in want["data"] and not np.array_equal(arr_, want["data"][nm_]):
+                    bad.append((fr["step"], nm_))
+        if sol is not None:
+            last = ref_frames.get(int(sol.tdgl_data.state["step"]))
+            if last is not None:
+                for nm_ in runs.FIELDS:
+                    if not np.array_equal(np.asarray(getattr(sol.tdgl_data, nm_)), last["data"][nm_]):
+                        bad.append(("returned solution", nm_))
+        if bad:
+            rp = dict(interrupted_in=where, at_step=at_step, where=[list(map(str, b)) for b in bad[:6]])
+            ctx.fail("cancel-mid-update:untruthful-frame", f"cancellation inside {where} of step {at_step}: frames / partial solution do not hold the states of the uninterrupted run: {bad[:4]}", rp)
+            first = first or dict(key="cancel-mid-update:untruthful-frame", what=str(bad[:4]), **rp)
+    return first
+
+
 def run(ctx, stop_first=False, with_model=True):
     dev = zoo.make_device("bar", ctx.rng, max_edge_length=1.0)
     kw = dict(applied_vector_potential=0.3, terminal_currents={"source": 2.0, "drain": -2.0})
@@ -297,6 +368,7 @@ def run(ctx, stop_first=False, with_model=True):
     for out_mode in ("path", "existing", "existing2", "stale_tmp", "stale_tmp_serial", "none"):
         f = one(ctx, dev, kw, 2, 3, False, out_mode, dict(ucall=None, kind="error"))
         first = first or f
+    first = first or mid_update_cancel(ctx)
     return first
 
 
